@@ -702,7 +702,27 @@ func spendWitnessV0(r *vlib.Rand, res *result) {
 	pk := push(k.pub)
 	var ws, code []byte
 	name := ""
-	switch r.Intn(4) {
+	multisig, twoSigs := false, false
+	switch r.Intn(8) {
+	case 4:
+		name, multisig = "multisig-1of1", true
+		ws = cat([]byte{0x51}, pk, []byte{0x51, 0xae})
+		code = ws
+	case 5:
+		// the script code of CHECKMULTISIG starts behind the last executed separator, like that of CHECKSIG
+		name, multisig = "codesep-before-multisig", true
+		ws = cat([]byte{0x61, opCodeSep, 0x51}, pk, []byte{0x51, 0xae})
+		code = cat([]byte{0x51}, pk, []byte{0x51, 0xae})
+	case 6:
+		name, multisig = "multisig-codesep-after", true
+		ws = cat([]byte{0x51}, pk, []byte{0x51, 0xaf, opCodeSep, 0x51}) // CHECKMULTISIGVERIFY CODESEP 1
+		code = ws
+	case 7:
+		// <pk> CHECKSIGVERIFY CODESEP 1 <pk> 1 CHECKMULTISIG: the first signature covers the whole script, the second what
+		// follows the separator
+		name, multisig, twoSigs = "checksigverify-codesep-multisig", true, true
+		ws = cat(pk, []byte{0xad, opCodeSep, 0x51}, pk, []byte{0x51, 0xae})
+		code = cat([]byte{0x51}, pk, []byte{0x51, 0xae})
 	case 0:
 		name = "plain"
 		ws = cat(pk, []byte{0xac})
@@ -726,6 +746,13 @@ func spendWitnessV0(r *vlib.Rand, res *result) {
 	digest := refsighash.WitnessV0(t, code, spent[idx].Value, idx, uint32(ht))
 	sig := ecdsaSig(k, digest, ht, 0)
 	t.In[idx].Witness = [][]byte{sig, ws}
+	if multisig {
+		t.In[idx].Witness = [][]byte{{}, sig, ws} // empty dummy element first
+		if twoSigs {
+			d1 := refsighash.WitnessV0(t, ws, spent[idx].Value, idx, uint32(ht))
+			t.In[idx].Witness = [][]byte{{}, sig, ecdsaSig(k, d1, ht, 0), ws}
+		}
+	}
 	kind := hashTypeKind(uint32(ht))
 	if ht&0x1f == 3 && idx >= len(t.Out) {
 		kind += "/out-of-range"
